@@ -31,6 +31,8 @@ class Ctx:
         ce = ContractEval(e, self.contracts, self.defs)
         e.ev = ce
         e.contracts = self.contracts
+        from .externals import DEFAULT_ABSTRACT
+        e.abstract = dict(DEFAULT_ABSTRACT)
         return e, ce
 
     def seed_globals(self, st, include_mutable=False):
